@@ -30,6 +30,33 @@ type tapDS struct {
 	ds.Batching
 	mu      sync.Mutex
 	written []string
+	// fault injection (stratum ds-fault): the n-th mutating datastore call
+	// (Put, Delete, Batch.Put, Batch.Commit) fails BEFORE anything is applied.
+	faultEvery int
+	calls      int
+	injected   int
+}
+
+var errInjected = errors.New("verif: injected datastore fault")
+
+func (t *tapDS) fault() error {
+	t.mu.Lock()
+	defer t.mu.Unlock()
+	if t.faultEvery <= 0 {
+		return nil
+	}
+	t.calls++
+	if t.calls%t.faultEvery == 0 {
+		t.injected++
+		return errInjected
+	}
+	return nil
+}
+func (t *tapDS) Delete(ctx context.Context, k ds.Key) error {
+	if err := t.fault(); err != nil {
+		return err
+	}
+	return t.Batching.Delete(ctx, k)
 }
 
 func (t *tapDS) note(k ds.Key) {
@@ -38,6 +65,9 @@ func (t *tapDS) note(k ds.Key) {
 	t.mu.Unlock()
 }
 func (t *tapDS) Put(ctx context.Context, k ds.Key, v []byte) error {
+	if err := t.fault(); err != nil {
+		return err
+	}
 	t.note(k)
 	return t.Batching.Put(ctx, k, v)
 }
@@ -55,8 +85,17 @@ type tapBatch struct {
 }
 
 func (b *tapBatch) Put(ctx context.Context, k ds.Key, v []byte) error {
+	if err := b.t.fault(); err != nil {
+		return err
+	}
 	b.t.note(k)
 	return b.Batch.Put(ctx, k, v)
+}
+func (b *tapBatch) Commit(ctx context.Context) error {
+	if err := b.t.fault(); err != nil {
+		return err
+	}
+	return b.Batch.Commit(ctx)
 }
 
 type cidForm struct {
@@ -88,13 +127,19 @@ func main() { vlib.Run("C01", run) }
 
 func run(c *vlib.Ctx) {
 	c.Rule("histories of 5-80 ops {Put,PutMany,Delete,Get,Has,GetSize,View,AllKeysChan,AllKeysChanWithErr} over 8 payloads x 7 CID forms (v0/v1 aliases, blake2b, sha2-512, identity) x {WriteThrough,NoPrefix,IdStore}; distinct = FNV of config+op list; non-trivial = history has a delete, an access through an alias of a stored multihash, and an identity CID")
-	c.Cases("hist", c.N(2000, 100000), func(k *vlib.Case) { oneHistory(k, false) })
+	c.Cases("hist", c.N(2000, 100000), func(k *vlib.Case) { oneHistory(k, false, false) })
 	// WriteThrough stratum with overwrites: under WriteThrough every put is
 	// written, so a put of different bytes under an already stored multihash
 	// (e.g. repairing a corrupt value) must become the bytes served. Without
 	// WriteThrough an existing key is deliberately not rewritten, so such
 	// blocks are only generated here.
-	c.Cases("wt-rewrite", c.N(600, 30000), func(k *vlib.Case) { oneHistory(k, true) })
+	c.Cases("wt-rewrite", c.N(600, 30000), func(k *vlib.Case) { oneHistory(k, true, false) })
+	// Datastore write faults: a mutating datastore call fails before applying
+	// anything. A blockstore call that then returns nil must have stored (or
+	// deleted) what it was asked to; one that returns the injected error must
+	// have changed nothing (the fault hits before the write / before the
+	// batch commit), so the model stays as it was.
+	c.Cases("ds-fault", c.N(600, 30000), func(k *vlib.Case) { oneHistory(k, false, true) })
 }
 
 type world struct {
@@ -108,7 +153,7 @@ type world struct {
 	ctx     context.Context
 }
 
-func oneHistory(k *vlib.Case, rewrite bool) {
+func oneHistory(k *vlib.Case, rewrite, faults bool) {
 	r := k.R
 	ctx := context.Background()
 	wt, np, ids := r.Bool(), r.Bool(), r.Bool()
@@ -117,6 +162,9 @@ func oneHistory(k *vlib.Case, rewrite bool) {
 	}
 	base := dssync.MutexWrap(ds.NewMapDatastore())
 	tap := &tapDS{Batching: base}
+	if faults {
+		tap.faultEvery = r.Range(2, 6)
+	}
 	var opts []bstore.Option
 	if wt {
 		opts = append(opts, bstore.WriteThrough(true))
@@ -128,14 +176,16 @@ func oneHistory(k *vlib.Case, rewrite bool) {
 	if ids {
 		bs = bstore.NewIdStore(bs)
 	}
-	k.Logf("config writeThrough=%v noPrefix=%v idstore=%v", wt, np, ids)
+	k.Logf("config writeThrough=%v noPrefix=%v idstore=%v faultEvery=%d", wt, np, ids, tap.faultEvery)
 	w := &world{k: k, bs: bs, tap: tap, base: base, idstore: ids, prefix: !np, model: map[string][]byte{}, ctx: ctx}
 
 	// payload pool
 	pool := [][]byte{{}, []byte("a"), []byte("hello world")}
-	for len(pool) < 8 {
+	for len(pool) < 7 {
 		pool = append(pool, r.Bytes(r.Range(1, 70)))
 	}
+	// one long payload: an identity CID of >= 128 bytes has a two-byte length varint
+	pool = append(pool, r.Bytes([]int{127, 128, 129, 200, 300}[r.Intn(5)]))
 	pick := func() (cid.Cid, []byte, string) {
 		p := pool[r.Intn(len(pool))]
 		f := forms[r.Intn(len(forms))]
@@ -169,6 +219,10 @@ func oneHistory(k *vlib.Case, rewrite bool) {
 				panic(err)
 			}
 			err = bs.Put(ctx, blk)
+			if err != nil && faults && errors.Is(err, errInjected) {
+				k.Logf("  -> injected fault reported; nothing stored")
+				break
+			}
 			if err != nil {
 				k.Fail("put-error", "put-succeeds", "nil", err.Error())
 				break
@@ -196,6 +250,10 @@ func oneHistory(k *vlib.Case, rewrite bool) {
 			}
 			k.Logf("PutMany [%s]", strings.Join(desc, " "))
 			if err := bs.PutMany(ctx, blks); err != nil {
+				if faults && errors.Is(err, errInjected) {
+					k.Logf("  -> injected fault reported; batch not committed")
+					break
+				}
 				k.Fail("putmany-error", "putmany-succeeds", "nil", err.Error())
 				break
 			}
@@ -207,6 +265,10 @@ func oneHistory(k *vlib.Case, rewrite bool) {
 			k.Logf("Delete %s %s", fn, c)
 			sawDelete = true
 			if err := bs.DeleteBlock(ctx, c); err != nil {
+				if faults && errors.Is(err, errInjected) {
+					k.Logf("  -> injected fault reported; nothing deleted")
+					break
+				}
 				k.Fail("delete-error", "delete-succeeds", "nil", err.Error())
 				break
 			}
@@ -307,6 +369,7 @@ func oneHistory(k *vlib.Case, rewrite bool) {
 		k.Nontrivial()
 	}
 	k.C.Count("ops", int64(n))
+	k.C.Count("injected_datastore_faults", int64(tap.injected))
 }
 
 func (w *world) modelPut(c cid.Cid, data []byte) {
